@@ -27,4 +27,15 @@ theorem step_current (x : RollC.Src) (hx : x ∈ Gen.RollStep.all) (hn : x.name 
   rw [h2]
   exact canonStep_val h a b
 
+/-- the scan loops of the current source, as whole loops, are the model's `untilLoop` (C09) -/
+theorem scan_current (x : RollC.Src) (hx : x ∈ Gen.RollStep.all) (hn : x.name = "until0" ∨ x.name = "until1")
+    (hit : UInt64 → Bool) (max : Nat) (t1 t2 : UInt8 → UInt64) (b1 b2 : Impl.Rolling.Ptr) (i : Nat) (h : UInt64) :
+    Impl.Rolling.untilLoop hit max t1 t2 b1 b2 i h = untilLoopP x.prog hit max t1 t2 b1 b2 i h := by
+  have h1 := List.all_eq_true.mp all_canon x hx
+  simp only [Bool.and_eq_true, decide_eq_true_eq] at h1
+  have h2 : x.prog = canonStep := by
+    rcases hn with hn | hn <;> (rw [hn] at h1; have := h1.2; simp [expected] at this; exact this.1)
+  rw [h2]
+  exact untilLoop_eq hit max t1 t2 b1 b2 i h
+
 end IsalVerif.GenProps.RollStep
